@@ -398,9 +398,12 @@ def check(ctx: Ctx):
     okh = len(oc_) == 1 and [norm(x) for x in oc_[0].args] == [hp[1], hp[3], hp[4]]
     lookup = [n for n in walk_no_nested(hm.node) if isinstance(n, ast.Assign) and isinstance(n.value, ast.Call)
               and is_self_attr(n.value.func, "computation") and [norm(x) for x in n.value.args] == [hp[2]]]
+    if okh:
+        kk = count_paths(hm.node.body, calls_hit(lambda x: x is oc_[0])).k
+        okh = all(v == (1, 1) for kind, v in kk.items() if kind in ("fall", "return"))
     ctx.check(okh and len(lookup) == 1 and isinstance(oc_[0].func, ast.Attribute) and norm(oc_[0].func.value) == norm(lookup[0].targets[0]),
               "R-QUEUE.roles", "_handle_message -> dest.on_message(sender, msg, t)", hm, oc_[0] if oc_ else hm.node,
-              "the destination computation (looked up by name) must receive (sender, message, time)")
+              "the destination computation (looked up by name) must receive (sender, message, time), on every path: it is on_message that keeps messages for a computation not running yet")
     # clean_shutdown
     txt = [norm(c) for c in walk_no_nested(cs.node) if isinstance(c, ast.Call)]
     ctx.check("self._shutdown.set()" in txt and "self._messaging.shutdown()" in txt and "self._stopping.set()" not in txt,
@@ -465,6 +468,7 @@ def _block_of(func_node, stmt):
 _F = "pydcop/infrastructure/communication.py"
 _A = "pydcop/infrastructure/agents.py"
 VARIANTS = [
+    ("deliver_only_if_running", _A, "        dest = self.computation(dest_name)\n        dest.on_message(sender_name, msg, t)\n", "        dest = self.computation(dest_name)\n        if dest.is_running:\n            dest.on_message(sender_name, msg, t)\n", "break", "R-QUEUE.roles"),
     ("register_before_store", "pydcop/infrastructure/agents.py", "        self._computations[comp_name] = computation\n        self.discovery.register_computation(comp_name, self.name,self.address,\n                                            publish=publish)\n",
      "        self.discovery.register_computation(comp_name, self.name,self.address,\n                                            publish=publish)\n        self._computations[comp_name] = computation\n", "break", "R-RETRY.order"),
     ("lifo_queue", _F, "        self._queue = PriorityQueue()", "        self._queue = LifoQueue()", "break", "R-QUEUE.kind"),
